@@ -4,7 +4,7 @@ from txcommon import *
 class C02(TxCheck):
     ID = "C02"
     MODE = "c02"
-    LEVEL = "exploration"   # until the per-event preservation lemmas are all closed (coq/Tx/PROOFS.md)
+    LEVEL = "proof"
     N_QUICK = 60
     N_THOROUGH = 2000
     KINDS = ["balance_differs_from_ledger", "spendable_set_differs_from_ledger", "unconfirmed_set_differs_from_ledger",
